@@ -1,6 +1,8 @@
 """C15 — planner caches are transparent: results are independent of session history."""
 import gc
+import itertools
 import os
+import time
 import shutil
 import tempfile
 
@@ -9,6 +11,7 @@ from mc.core import exc_kind, short, time_limit, CaseTimeout
 from mc.env import dask, pd, np
 
 ID = "C15"
+_TICK = itertools.count(1)
 REF = {}  # reference tables, set in the parent before the workers are forked
 FAIL = {"on": False}
 DATASET = {"dir": None, "version": 0}
@@ -37,10 +40,11 @@ def _fp(n):
     return dx.from_pandas(_SHARED_FRAME, npartitions=n)
 
 
-def _pq(reader):
+def _pq(reader, **kw):
     import dask_expr as dx
 
-    kw = {"filesystem": "arrow"} if reader == "arrow" else {}
+    if reader == "arrow":
+        kw["filesystem"] = "arrow"
     return dx.read_parquet(DATASET["dir"], **kw)
 
 
@@ -62,15 +66,39 @@ QUERIES = {
     "pq_proj": lambda: _pq("fsspec")[["k"]],
     "pqa_all": lambda: _pq("arrow"),
     "pqa_filter": lambda: (lambda x: x[x["w"] > 4][["k", "w"]])(_pq("arrow")),
+    "pq_div": lambda: _pq("fsspec", calculate_divisions=True),
+    "pqa_div": lambda: _pq("arrow", calculate_divisions=True),
+    "pq_div_loc": lambda: (lambda x: x.loc[x.divisions[1]:])(_pq("fsspec", calculate_divisions=True)),
+    "pqa_div_loc": lambda: (lambda x: x.loc[x.divisions[1]:])(_pq("arrow", calculate_divisions=True)),
     "shared_sub": lambda: (lambda x: x.assign(z=x["a"] + 1)[x["u"] > 2])(_Tm()),
     "gb": lambda: _Tm().groupby("a")["b"].sum(),
 }
 FILLERS = [(lambda i: (lambda: _Tm().assign(f=i).set_index("u")))(i) for i in range(11)]
 
 PQ_V = {
-    0: pd.DataFrame({"k": [3, 1, 2, 1, 3, 2, 4, 4], "w": [7, 3, 11, 0, 5, 9, 1, 10]}),
-    1: pd.DataFrame({"k": [9, 9, 8, 8, 7, 7], "w": [1, 2, 30, 40, 50, 6]}),
+    # same shapes, dtypes, digit counts and per-file value multisets => identical file sizes:
+    # a rewrite is only visible through the file modification time
+    0: pd.DataFrame({"k": [3, 1, 2, 1, 5, 2, 4, 4], "w": [7, 3, 1, 0, 5, 9, 6, 8]}, index=pd.Index(range(10, 18), name="idx")),
+    1: pd.DataFrame({"k": [1, 2, 1, 3, 4, 4, 2, 5], "w": [0, 1, 3, 7, 8, 6, 9, 5]}, index=pd.Index(range(20, 28), name="idx")),
 }
+TEMPLATES = {}  # version -> directory with the files as written by to_parquet (prepared by the parent)
+
+
+def prepare_templates(root):
+    """Write both dataset versions with dask's own writer in a throw-away child process."""
+    import multiprocessing as mp
+
+    def work():
+        import dask_expr as dx
+
+        for v, pdf in PQ_V.items():
+            dx.from_pandas(pdf, npartitions=2).to_parquet(os.path.join(root, f"v{v}"))
+
+    p = mp.get_context("fork").Process(target=work)
+    p.start()
+    p.join()
+    for v in PQ_V:
+        TEMPLATES[v] = os.path.join(root, f"v{v}")
 
 
 def write_dataset(d, version, how="pyarrow"):
@@ -80,9 +108,17 @@ def write_dataset(d, version, how="pyarrow"):
 
         dx.from_pandas(pdf, npartitions=2).to_parquet(d, overwrite=True)
         return
-    for f in os.listdir(d) if os.path.isdir(d) else []:
-        os.remove(os.path.join(d, f))
+    # an external writer replaces the files (same names, same sizes, new modification time)
     os.makedirs(d, exist_ok=True)
+    for f in os.listdir(d):
+        os.remove(os.path.join(d, f))
+    if version in TEMPLATES:
+        now = time.time() + version + 5 * next(_TICK)
+        for f in sorted(os.listdir(TEMPLATES[version])):
+            dst = os.path.join(d, f)
+            shutil.copyfile(os.path.join(TEMPLATES[version], f), dst)
+            os.utime(dst, (now, now))
+        return
     for i, part in enumerate(tables.cut(pdf, [len(pdf) // 2])):
         part.to_parquet(os.path.join(d, f"part.{i}.parquet"))
 
@@ -219,6 +255,10 @@ def evaluate(case):
     ref = {}
     from mc.runner import pmap
 
+    own_root = None
+    if not TEMPLATES:
+        own_root = tempfile.mkdtemp(prefix="c15t_")
+        prepare_templates(own_root)
     singles = []
     for ev in case["hist"]:
         if ev[0] in ("optimize", "divisions", "len", "compute"):
@@ -228,6 +268,9 @@ def evaluate(case):
         for kind, arg, ver, o in r["info"]["obs"]:
             ref[f"{kind}|{arg}|{ver}"] = o
     (it, r), = pmap(run_history, [dict(case, ref=ref, fresh=True)], chunk=1, nproc=1)
+    if own_root:
+        shutil.rmtree(own_root, ignore_errors=True)
+        TEMPLATES.clear()
     return r
 
 
@@ -245,6 +288,8 @@ def run(ctx):
     quick = ctx.tier == "quick"
     from mc.runner import pmap
 
+    _tmpl_root = tempfile.mkdtemp(prefix="c15t_")
+    prepare_templates(_tmpl_root)
     obs_kinds = ["optimize", "compute", "len", "divisions"]
     qnames = list(QUERIES)
     events = []
@@ -254,8 +299,8 @@ def run(ctx):
                 continue
             events.append([k, q])
     events += [["fail", q] for q in ("si_u", "sort_u", "rp_200", "gb")]
-    events += [["keep", q] for q in ("si_u", "fp_2", "pq_all", "pqa_all")]
-    events += [["drop", q] for q in ("si_u", "fp_2", "pq_all", "pqa_all")]
+    events += [["keep", q] for q in ("si_u", "fp_2", "pq_all", "pqa_div")]
+    events += [["drop", q] for q in ("si_u", "fp_2", "pq_all", "pqa_div")]
     events += [["rewrite", "toggle"], ["rewrite", "toggle", "to_parquet"], ["flood"]]
     configs = [{}] if quick else [{}, {"capacity": 2}]
     ctx.rule = (f"BFS over session histories: {len(events)} events (optimize / compute / len / divisions of {len(qnames)} queries aliasing on every cache-key component, "
@@ -320,4 +365,7 @@ def run(ctx):
     ctx.sample("optimize,si_u|compute,si_u_up2|divisions,si_u")
     ctx.assumptions += ["two histories with the same census have the same futures (every planner decision that is not a function of the query reads one of the censused containers)",
                         "p2p/distributed caches are unreachable in this image"]
-    return ctx.finish(evaluate, shrink, key)
+    try:
+        return ctx.finish(evaluate, shrink, key)
+    finally:
+        shutil.rmtree(_tmpl_root, ignore_errors=True)
